@@ -26,7 +26,8 @@ RULE = ("each case = 3..24 Hypothesis-drawn pairs from vp.gen.sky.pair() (unifor
 ASSUMPTIONS = [
     "latitudes lie in [-90,90] degrees (float32 input only in degrees: float32(pi/2) exceeds pi/2)",
     "both points of a call use the same input unit (the API has one input unit per call)",
-    "gcirc(getangle=True) is not part of the statement and is not exercised",
+    "the position angle of gcirc(getangle=True) is not part of the statement; the separation returned with it is "
+    "(it must equal the one gcirc() returns)",
     "scalar-vs-array agreement is demanded bit-for-bit (numpy evaluates the same ufunc loops); the truth "
     "comparison is applied to the scalar results as well, so the relation is never the only oracle",
 ]
@@ -321,6 +322,14 @@ def check_gcirc_value(case, ctx):
     require(np.all(d[same] == 0.0), "gcirc of identical inputs is not exactly 0: %r", d[same][d[same] != 0][:3])
     z = must(co.gcirc, a1, b1, a1, b1)
     require(z.shape == (n,) and np.all(z == 0.0), "gcirc(p, p) is not exactly 0: %r", z[z != 0][:3])
+    # asking for the position angle as well does not change the separation that is returned with it
+    ga = must(co.gcirc, a1, b1, a2, b2, getangle=True)
+    require(isinstance(ga, tuple) and len(ga) == 2, "gcirc(getangle=True) must return (distance, angle)")
+    require(np.array_equal(np.asarray(ga[0]), d), "gcirc(getangle=True) returns other separations than gcirc(): "
+            "first difference %r vs %r", np.asarray(ga[0])[np.asarray(ga[0]) != d][:1], d[np.asarray(ga[0]) != d][:1])
+    za = must(co.gcirc, a1, b1, a1, b1, getangle=True)
+    require(np.all(np.asarray(za[0]) == 0.0), "gcirc(p, p, getangle=True) separation is not exactly 0: %r",
+            np.asarray(za[0])[np.asarray(za[0]) != 0][:3])
     # +360 on a longitude
     for off1, off2 in ((360.0, 0.0), (0.0, 360.0), (-360.0, 360.0)):
         s1 = (a1.astype("f8") + off1)
